@@ -223,6 +223,21 @@ def _over_all_operations(ctx, F, node):
 ROLE = {"table": "_operations_start", "makespan": "_makespan"}
 
 
+def _builds_int_vars(ctx, F, value, _depth=0):
+    """The value (through any definition of the names in it) contains a NewIntVar call."""
+    defs = ctx.flow.defs(F)
+    seen, work = set(), [value]
+    while work:
+        cur = work.pop()
+        for x in ast.walk(cur):
+            if isinstance(x, ast.Call) and isinstance(x.func, ast.Attribute) and canon(x.func.attr) == "NewIntVar":
+                return True
+            if isinstance(x, ast.Name) and x.id not in seen:
+                seen.add(x.id)
+                work += [d[1] for d in defs.of(x.id) if d[0] == "value" and d[1] is not None]
+    return False
+
+
 def _find_roles(ctx, solve):
     """The attribute names playing the two roles, found by shape (so a rename
     of the private attributes is not an analysis error):
@@ -235,7 +250,8 @@ def _find_roles(ctx, solve):
             t = n.targets[0]
             if (
                 isinstance(t, ast.Subscript) and isinstance(t.value, ast.Attribute) and isinstance(t.value.value, ast.Name)
-                and t.value.value.id == "self" and isinstance(n.value, (ast.Tuple, ast.Call)) and table is None
+                and t.value.value.id == "self" and table is None
+                and _builds_int_vars(ctx, F, n.value)
             ):
                 table = t.value.attr
             if (
@@ -466,6 +482,12 @@ def _no_overlap(ctx, F, solve, c):
     if not isinstance(table, ast.Name):
         return bad(f"per-machine loop iterates `{ast.unparse(it)}`")
     tname = table.id
+    for _ in range(4):  # plain aliases of the table (e.g. the result of an inlined helper)
+        ds = [d for d in ctx.flow.defs(F).of(tname) if d[0] == "value"]
+        if len(ds) == 1 and isinstance(ds[0][1], ast.Name):
+            tname = ds[0][1].id
+        else:
+            break
     # element variable of the per-machine loop
     tg = mloop.target
     elem = tg.elts[1] if isinstance(tg, ast.Tuple) and isinstance(it, ast.Call) and ast.unparse(it.func) == "enumerate" else tg
@@ -705,7 +727,20 @@ def _rebuild(ctx, cls):
         m = c.args[2] if len(c.args) > 2 else kw.get("machine_id")
         if o is None or st is None or m is None:
             raise AnalysisError(f"{cs.loc(c)}: ScheduledOperation(...) arguments not recognised")
-        ot, mt = ctx.norm.xtext(cs, o), ctx.norm.xtext(cs, m)
+        def xafter(e, _d=0):
+            """alias expansion that only looks at definitions made after Solve()
+            (the flattened solve reuses names of the model-building part)"""
+            if isinstance(e, ast.Name) and _d < 4:
+                ds = []
+                for d in defs.of(e.id):
+                    at = pos(d[2]) if len(d) > 2 and d[2] is not None else -1
+                    if d[0] == "value" and d[1] is not None and at >= after:
+                        ds.append(d[1])
+                if len(ds) == 1:
+                    return xafter(ds[0], _d + 1)
+            return ast.unparse(e)
+
+        ot, mt = xafter(o), xafter(m)
         if mt != f"{ot}.machine_id":
             okp = False
             chk.violation("R03.d", cs, c, f"the operation `{ot}` is scheduled on machine `{mt}`, not on its own machine", loc=cs.loc(c))
@@ -714,7 +749,7 @@ def _rebuild(ctx, cls):
         par = cs.module.parents.get(c)
         holder = None
         if isinstance(par, ast.Call) and isinstance(par.func, ast.Attribute) and par.func.attr == "append" and isinstance(par.func.value, ast.Subscript):
-            holder = ctx.norm.xtext(cs, par.func.value.slice)
+            holder = xafter(par.func.value.slice)
         if holder is not None and holder != mt:
             okp = False
             chk.violation("R03.d", cs, par, f"the operation of machine `{mt}` is appended to the list of machine `{holder}`", loc=cs.loc(par))
